@@ -1,7 +1,9 @@
 """C01 — SDOF response series is the exact solution of the oscillator equation.
 
 Layers: (T) eqsig/sdof.py:compute_a_and_b is re-translated to coq/gen/Gen_sdof_coeffs.v on every run and the theorems
-of Prop_C01 are re-proved about that text; (I) the generated formulas are point-checked against the floats returned by
+of Prop_C01 are re-proved about that text; (T') the statements around it (load sign, w literal, the two loop assignments,
+third series, T=0 row; for C03 the pseudo-spectral lines and the 6 dt cut) are re-extracted to coq/gen/Gen_sdof_loop.v
+(translator/py2coq_sdof_loop.py) and proved equal to the pieces of the hand model (P_C01_loop.v, P_C03_loop.v); (I) the generated formulas are point-checked against the floats returned by
 the real compute_a_and_b with the `interval` tactic; (H) the recurrence, row layout, w constant, third series, T=0 row
 and the three entry points are compared with the Q instance of model/M_sdof.v, the coefficients being the
 implementation's own compute_a_and_b values (so only structure is compared there).
@@ -26,6 +28,7 @@ RULE = ('correspondence cases = (entry point, xi, periods (optionally one leadin
 TRUSTED = [
     'Coq 8.16.1 kernel + vm_compute; Coquelicot (derivatives), Interval (point enclosures)',
     'translator/py2coq_scalar.py (Python ast -> Coq R expressions, fail-closed) for compute_a_and_b; cross-checked each run by interval point checks against the real function',
+    'translator/py2coq_sdof_loop.py (Python ast, fail-closed, structural location of the statements) for the load sign, the w literal, the two loop assignments, the third series and the T=0 row of nigam_and_jennings_response: reads array statements as scalar statements for one oscillator and one sample (accepted forms in the header of coq/gen/Gen_sdof_loop.v); the numpy slicing/broadcasting semantics behind that reading is tied by the correspondence',
     'hand-written model coq/model/M_sdof.v of the recurrence/rows/T=0 branch; tie = correspondence of this run (model/K_C01.v)',
     'exact real arithmetic in the theorems: the rounding clause of the property (1e-6 + 5e-8*duration/T + eps/(w dt)^3) is measured against an independent 50-digit reference (thorough tier / search), not proved',
     'Python harness (generators, rational encoding, result parsing)',
@@ -41,6 +44,18 @@ def regen():
         return None
     except Exception as e:  # noqa
         return 'translator/py2coq_scalar.py failed on eqsig/sdof.py:compute_a_and_b: %s: %s' % (type(e).__name__, e)
+
+
+def regen_loop():
+    """re-extract the statements around compute_a_and_b (load sign, w constant, loop body, third series, pseudo-spectral
+    lines, the 6 dt cut) from $EQSIG_REPO/eqsig/sdof.py into coq/gen/Gen_sdof_loop.v; None or an error message (used by C01 and C03)"""
+    sys.path.insert(0, os.path.join(core.VERIF, 'translator'))
+    import py2coq_sdof_loop
+    try:
+        py2coq_sdof_loop.generate(core.REPO, os.path.join(core.COQ, 'gen', 'Gen_sdof_loop.v'))
+        return None
+    except Exception as e:  # noqa
+        return 'translator/py2coq_sdof_loop.py failed on eqsig/sdof.py: %s: %s' % (type(e).__name__, e)
 
 
 # ----------------------------------------------------------------------------- independent high-precision reference
@@ -259,7 +274,8 @@ def point_goals(rng, tier):
 def run(rep, rng, tier):
     from eqsig import sdof
     gen_err = regen()
-    proved = rep.prove('Prop_C01', gen_failed=gen_err)
+    loop_err = regen_loop()
+    proved = rep.prove('Prop_C01', gen_failed=gen_err or loop_err)
 
     # (I) point checks of the translated formulas
     point_fail = []
@@ -365,4 +381,4 @@ def run(rep, rng, tier):
 
 def finish(rep):
     return rep.finish(rule=RULE, trusted=TRUSTED, assumptions=['exact real arithmetic in the theorems; 0 < w, 0 < dt, 0 <= xi < 1'],
-                      checker_cmd='translator/py2coq_scalar.py /repo -> coq/gen/Gen_sdof_coeffs.v; cd /verif/coq && make props/Prop_C01.vo; Print Assumptions per theorem; coqc coq/run/C01_ivl_*.v (interval goals); coqc coq/run/C01_check_case_*.v (vm_compute correspondence)')
+                      checker_cmd='translator/py2coq_scalar.py /repo -> coq/gen/Gen_sdof_coeffs.v; translator/py2coq_sdof_loop.py /repo -> coq/gen/Gen_sdof_loop.v; cd /verif/coq && make props/Prop_C01.vo; Print Assumptions per theorem; coqc coq/run/C01_ivl_*.v (interval goals); coqc coq/run/C01_check_case_*.v (vm_compute correspondence)')
